@@ -471,11 +471,14 @@ func (o *Overlay) handleSendTreeMarshal(si *network.ServerIdentity, tm *TreeMars
 	}
 
 	var ro *Roster
+	// other connections create and delete instances concurrently
+	o.instancesLock.Lock()
 	for _, inst := range o.instances {
 		if inst.Roster().ID.Equal(tm.RosterID) {
 			ro = inst.Roster()
 		}
 	}
+	o.instancesLock.Unlock()
 
 	if ro == nil {
 		log.Lvl1("unknown roster")
